@@ -114,6 +114,9 @@ def symbols():
     add('from_phi_3d', lambda: {'phi': _phi(3), 'xx': _grid()}, lambda a: dadi.Spectrum.from_phi(a['phi'], [3, 5, 2], [a['xx']] * 3))
     add('from_phi_4d', lambda: {'phi': _phi(4, 4), 'xx': np.array([0.0, 0.25, 0.5, 1.0])}, lambda a: dadi.Spectrum.from_phi(a['phi'], [2, 3, 2, 1], [a['xx']] * 4))
     add('from_phi_inbreeding', lambda: {'phi': _phi(1), 'xx': _grid()}, lambda a: dadi.Spectrum.from_phi_inbreeding(a['phi'], [4], [a['xx']], [0.3], [2]))
+    # same number of individuals as the two symbols around them, other ploidy (the partition tables behind the convolution are memoised)
+    add('from_phi_inbreeding_ploidy4_2ind', lambda: {'phi': _phi(1), 'xx': _grid()}, lambda a: dadi.Spectrum.from_phi_inbreeding(a['phi'], [8], [a['xx']], [0.3], [4]))
+    add('from_phi_inbreeding_3ind', lambda: {'phi': _phi(1), 'xx': _grid()}, lambda a: dadi.Spectrum.from_phi_inbreeding(a['phi'], [6], [a['xx']], [0.3], [2]))
     add('from_phi_inbreeding_ploidy4', lambda: {'phi': _phi(1), 'xx': _grid()}, lambda a: dadi.Spectrum.from_phi_inbreeding(a['phi'], [12], [a['xx']], [0.3], [4]))
     add('lowpass_nocall', lambda: {'cov': np.array([np.arange(6.0), [0.1, 0.2, 0.3, 0.2, 0.1, 0.1]])},
         lambda a: LP.probability_of_no_call_1D_GATK_multisample(a['cov'], 6, 0.2))
@@ -168,6 +171,9 @@ def symbols():
     add('three_pops', lambda: {'phi': _phi(3), 'xx': _grid()}, lambda a: I.three_pops(a['phi'], a['xx'], 0.005, nu1=2.0, nu2=0.5, nu3=1.5, m13=1.0, m21=0.3))
     add('four_pops', lambda: {'phi': _phi(4, 4), 'xx': np.array([0.0, 0.25, 0.5, 1.0])},
         lambda a: I.four_pops(a['phi'], a['xx'], 0.005, nu1=2.0, nu2=0.5, nu3=1.5, nu4=0.8, m14=1.0, m21=0.3))
+    add('two_pops_T0', lambda: {'phi': _phi(2), 'xx': _grid()}, lambda a: I.two_pops(a['phi'], a['xx'], 0.0, nu1=2.0))
+    add('three_pops_T0', lambda: {'phi': _phi(3), 'xx': _grid()}, lambda a: I.three_pops(a['phi'], a['xx'], 0.0, nu1=2.0))
+    add('five_pops_T0', lambda: {'phi': _phi(5, 3), 'xx': np.array([0.0, 0.5, 1.0])}, lambda a: I.five_pops(a['phi'], a['xx'], 0.0))
     add('four_pops_T0', lambda: {'phi': _phi(4, 4), 'xx': np.array([0.0, 0.25, 0.5, 1.0])}, lambda a: I.four_pops(a['phi'], a['xx'], 0.0))
     add('five_pops', lambda: {'phi': _phi(5, 3), 'xx': np.array([0.0, 0.5, 1.0])},
         lambda a: I.five_pops(a['phi'], a['xx'], 0.004, nu1=2.0, nu2=0.5, nu3=1.5, nu4=0.8, nu5=1.2, m15=1.0, m21=0.3))
@@ -187,7 +193,7 @@ def symbols():
     return S
 
 
-QUICK_SYMS = ['from_phi_inbreeding_ploidy4', 'lowpass_nocall', 'fragment_bootstrap', 'FIM_A_pts40', 'project_1d', 'project_2d', 'from_phi_1d', 'from_phi_2d', 'from_phi_2d_gridB', 'from_phi_inbreeding', 'from_data_dict_1', 'lowpass_projmat_F0',
+QUICK_SYMS = ['from_phi_inbreeding_ploidy4', 'from_phi_inbreeding_ploidy4_2ind', 'from_phi_inbreeding_3ind', 'lowpass_nocall', 'fragment_bootstrap', 'FIM_A_pts40', 'project_1d', 'project_2d', 'from_phi_1d', 'from_phi_2d', 'from_phi_2d_gridB', 'from_phi_inbreeding', 'from_data_dict_1', 'lowpass_projmat_F0',
               'lowpass_projmat_F', 'LRT_A1', 'LRT_A2', 'FIM_A', 'object_func', 'optimize_grid', 'two_pops']
 BLAS = {'from_phi_2d', 'from_phi_2d_gridB', 'from_phi_2d_gridC', 'from_phi_3d', 'from_phi_4d', 'reorder_then_sample', 'demes_sfs', 'demes_sfs_BA'}
 
